@@ -96,6 +96,7 @@ class Walker:
         pending = None
         carried = []
         last_pair = None
+        last_entraited = None
         mpath = "::".join(path)
         for t in T:
             kind, name = t.kind_and_name()
@@ -125,14 +126,17 @@ class Walker:
                 continue
             gen = R[j:k]
             if gen:
-                if last_pair is not None and last_pair.attr is not None:
-                    last_pair.generated.extend(gen)
+                if last_entraited is not None:
+                    # (items emitted by a foreign attribute macro on the original may sit in between)
+                    last_entraited.generated.extend(gen)
                 else:
                     self.finding(key + " before", "%d generated item(s) appear in `%s` before/without an entraited original (first: `%s`)"
                                  % (len(gen), mpath, " ".join(gen[0].words()[:6])))
             pair = Pair(path, pending, t, R[k], kind, name, [])
             self.pairs.append(pair)
             last_pair = pair
+            if pending is not None:
+                last_entraited = pair
             if pending is not None:
                 self.check_entraited(pair, key, attrs)
             elif kind == "mod" and t.body_group() is not None:
@@ -141,8 +145,8 @@ class Walker:
             pending = None
         tail = R[j:]
         if tail:
-            if last_pair is not None and last_pair.attr is not None:
-                last_pair.generated.extend(tail)
+            if last_entraited is not None and not in_entraited_mod:
+                last_entraited.generated.extend(tail)
             elif in_entraited_mod:
                 self.tail = tail
                 return tail
